@@ -18,6 +18,8 @@ package main
 import (
 	"bufio"
 	"bytes"
+	"context"
+	"errors"
 	"fmt"
 	"io"
 	"log"
@@ -30,6 +32,7 @@ import (
 	"strconv"
 	"strings"
 	"sync"
+	"syscall"
 	"time"
 
 	"github.com/vulcand/oxy/v2/buffer"
@@ -332,6 +335,43 @@ func (s *scen) inner(w http.ResponseWriter, r *http.Request) {
 
 var tokenSeq int
 
+// envClass recognises local-port exhaustion (many harness processes, sockets in TIME_WAIT).
+func envClass(err error) string {
+	switch {
+	case errors.Is(err, syscall.EADDRINUSE):
+		return "addr-in-use"
+	case errors.Is(err, syscall.EADDRNOTAVAIL):
+		return "addr-not-available"
+	}
+	return ""
+}
+
+// dialNoTimeWait dials with a few retries when no local port is available and makes the connection close with
+// RST (linger 0): the server has keep-alives off, so every exchange would otherwise leave a socket in TIME_WAIT.
+func dialNoTimeWait(ctx context.Context, network, addr string) (net.Conn, error) {
+	var d net.Dialer
+	var c net.Conn
+	var err error
+	for try := 0; try < 6; try++ {
+		c, err = d.DialContext(ctx, network, addr)
+		if err == nil || envClass(err) == "" {
+			break
+		}
+		select {
+		case <-ctx.Done():
+			return nil, err
+		case <-time.After(time.Duration(50*(try+1)) * time.Millisecond):
+		}
+	}
+	if err != nil {
+		return nil, err
+	}
+	if t, ok := c.(*net.TCPConn); ok {
+		_ = t.SetLinger(0)
+	}
+	return c, nil
+}
+
 type hideReader struct{ r io.Reader }
 
 func (h hideReader) Read(p []byte) (int, error) { return h.r.Read(p) }
@@ -379,7 +419,7 @@ func (s *scen) doReq(f []string) string {
 	s.cur = ex
 	s.mu.Unlock()
 	client := &http.Client{
-		Transport:     &http.Transport{DisableKeepAlives: true, DisableCompression: true},
+		Transport:     &http.Transport{DisableKeepAlives: true, DisableCompression: true, DialContext: dialNoTimeWait},
 		Timeout:       4 * time.Second,
 		CheckRedirect: func(*http.Request, []*http.Request) error { return http.ErrUseLastResponse },
 	}
@@ -387,6 +427,11 @@ func (s *scen) doReq(f []string) string {
 	cl := "ok"
 	var cbody []byte
 	if err != nil {
+		if class := envClass(err); class != "" {
+			// the machine ran out of local ports: an environment failure, not something Buffer did
+			client.CloseIdleConnections()
+			return "env-error " + class
+		}
 		cl = "ERR"
 	} else {
 		cbody, err = io.ReadAll(resp.Body)
